@@ -201,7 +201,7 @@ def run(ck, facts):
     ck.expect(dup, "R4", "FileMap::add_file/duplicate-rejected", "", "adding the same file name twice is no longer rejected", C.loc(af))
     for b, min_sites in (("c", 2), ("cpp", 2), ("js", 1), ("dart", 1), ("kotlin", 1)):
         f = tool.fn("diplomat_tool::%s::run" % b)
-        sites = [x for x in C.calls_in(C.fn_body(f)) if x.get("k") == "mcall" and x.get("m") == "add_file"]
+        sites = [x for g_ in C.fns_inl(tool, f, depth=1) for x in C.calls_in(C.fn_body(g_)) if x.get("k") == "mcall" and x.get("m") == "add_file"]
         ck.expect(len(sites) >= min_sites, "R4", "%s::run/add_file-sites" % b, "%d" % len(sites), "only %d add_file sites in %s::run" % (len(sites), b), C.loc(f))
 
     # ---------------- R5 per-item scratch is reset in every sibling item loop
